@@ -87,9 +87,10 @@ class FixedCell(HasCell):
     def cell(self, cell: Cell) -> None:
         if self.cell is not None:
             raise ValueError("Cannot move agent in FixedCell")
-        self._mesa_cell = cell
-
+        # enter the cell first: if it refuses (it is full) the agent stays unplaced
         cell.add_agent(self)
+
+        self._mesa_cell = cell
 
 
 class CellAgent(Agent, HasCell, BasicMovement):
